@@ -3,6 +3,7 @@ package simrt
 import (
 	"fmt"
 	"reflect"
+	"runtime"
 	"runtime/debug"
 	"time"
 	"unsafe"
@@ -126,6 +127,10 @@ type Task struct {
 	crashStack string
 	syncVar    byte
 	waitSince  int
+	// goid is the id of the task's goroutine (two tasks run at once for a moment after a rendezvous on an
+	// unbuffered channel: me() tells them apart by it). pair: the partner of the rendezvous being granted.
+	goid uint64
+	pair *Task
 }
 
 //go:norace
@@ -153,6 +158,7 @@ func (s *Sim) startTask(t *Task) {
 
 //go:norace
 func (t *Task) main() {
+	t.goid = curGoid()
 	raceDisable()
 	<-t.baton
 	raceEnable()
@@ -207,6 +213,18 @@ func (s *Sim) resume(t *Task) {
 	raceEnable()
 }
 
+// resumePair gives the baton to both partners of a rendezvous and waits until both have come back.
+//
+//go:norace
+func (s *Sim) resumePair(a, b *Task) {
+	raceDisable()
+	a.baton <- struct{}{}
+	b.baton <- struct{}{}
+	<-s.back
+	<-s.back
+	raceEnable()
+}
+
 // me returns the running task, or nil in pass-through mode.
 //
 //go:norace
@@ -215,7 +233,36 @@ func me() *Task {
 	if s == nil {
 		return nil
 	}
+	if a := s.pairA; a != nil {
+		// the two partners of a rendezvous are both running until each reaches its next seam
+		id := curGoid()
+		if id == a.goid {
+			return a
+		}
+		if b := s.pairB; b != nil && id == b.goid {
+			return b
+		}
+		return nil
+	}
 	return s.cur
+}
+
+// curGoid returns the id of the calling goroutine (parsed from the header of its stack trace).
+//
+//go:norace
+func curGoid() uint64 {
+	var buf [40]byte
+	n := runtime.Stack(buf[:], false)
+	// "goroutine 123 [running]:"
+	var id uint64
+	for i := len("goroutine "); i < n; i++ {
+		c := buf[i]
+		if c < '0' || c > '9' {
+			break
+		}
+		id = id*10 + uint64(c-'0')
+	}
+	return id
 }
 
 //go:norace
@@ -359,8 +406,63 @@ func chanID(ch interface{}) (uintptr, reflect.Value) {
 	return v.Pointer(), v
 }
 
+// partners returns the tasks that wait at the other end of the unbuffered channel id: with wantSend the senders
+// (a plain send or a select without default that has a send case on it), otherwise the receivers. A rendezvous
+// needs both sides at the channel; a select with a default clause never waits there.
+//
 //go:norace
-func (s *Sim) chanRecvReady(ch interface{}) bool {
+func (s *Sim) partners(t *Task, id uintptr, wantSend bool) []*Task {
+	var out []*Task
+	for _, o := range s.tasks {
+		if o == t || o.state != stWaiting {
+			continue
+		}
+		if s.caseIndex(o, id, wantSend) >= 0 {
+			out = append(out, o)
+		}
+	}
+	return out
+}
+
+// caseIndex: the index of o's select case (0 for a plain send / receive) that is a send (receive) on channel id;
+// -1 if o does not wait for that.
+//
+//go:norace
+func (s *Sim) caseIndex(o *Task, id uintptr, wantSend bool) int {
+	switch o.req.kind {
+	case opSend:
+		if oid, _ := chanID(o.req.keep); wantSend && oid == id {
+			return 0
+		}
+	case opRecv:
+		if oid, _ := chanID(o.req.keep); !wantSend && oid == id {
+			return 0
+		}
+	case opSelect:
+		if o.req.hasDefault {
+			return -1
+		}
+		for i, c := range o.req.chans {
+			sc, isSend := c.(SendCase)
+			if isSend != wantSend {
+				continue
+			}
+			var oid uintptr
+			if isSend {
+				oid, _ = chanID(sc.Ch)
+			} else {
+				oid, _ = chanID(c)
+			}
+			if oid == id {
+				return i
+			}
+		}
+	}
+	return -1
+}
+
+//go:norace
+func (s *Sim) chanRecvReady(t *Task, ch interface{}) bool {
 	id, v := chanID(ch)
 	if id == 0 {
 		return false
@@ -368,30 +470,65 @@ func (s *Sim) chanRecvReady(ch interface{}) bool {
 	if v.Len() > 0 {
 		return true
 	}
-	_, closed := s.closed[id]
-	return closed
+	if _, closed := s.closed[id]; closed {
+		return true
+	}
+	// unbuffered: a sender must be waiting at the channel
+	return v.Cap() == 0 && len(s.partners(t, id, true)) > 0
+}
+
+//go:norace
+func (s *Sim) chanSendReady(t *Task, ch interface{}) bool {
+	id, v := chanID(ch)
+	if id == 0 {
+		return false
+	}
+	if _, closed := s.closed[id]; closed {
+		return true // the real send panics, as it should
+	}
+	if v.Cap() == 0 {
+		// unbuffered: a receiver must be waiting at the channel
+		return len(s.partners(t, id, false)) > 0
+	}
+	return v.Len() < v.Cap()
 }
 
 // caseReady: readiness of one select case (receive: the channel itself; send: SendCase).
 //
 //go:norace
-func (s *Sim) caseReady(c interface{}) bool {
+func (s *Sim) caseReady(t *Task, c interface{}) bool {
 	if sc, ok := c.(SendCase); ok {
-		id, v := chanID(sc.Ch)
-		if id == 0 {
-			return false
-		}
-		if _, closed := s.closed[id]; closed {
-			return true // the real send panics, as it should
-		}
-		if v.Cap() == 0 {
-			// a rendezvous needs two tasks at once, which the baton cannot express: never silently "not ready"
-			s.Machinery("select with a send on an unbuffered channel is not modelled")
-			return false
-		}
-		return v.Len() < v.Cap()
+		return s.chanSendReady(t, sc.Ch)
 	}
-	return s.chanRecvReady(c)
+	return s.chanRecvReady(t, c)
+}
+
+// rendezvous: the operation on ch being granted to t is one on an open unbuffered channel: pick the partner (a
+// seeded choice among the tasks waiting at the other end), decide its select case, and note the pair - both tasks
+// are resumed together and meet in the real channel operation.
+//
+//go:norace
+func (s *Sim) rendezvous(t *Task, ch interface{}, tSends bool) string {
+	id, v := chanID(ch)
+	if id == 0 || v.Cap() != 0 {
+		return ""
+	}
+	if _, closed := s.closed[id]; closed {
+		return ""
+	}
+	ps := s.partners(t, id, !tSends)
+	if len(ps) == 0 {
+		s.Machinery("rendezvous granted without a partner")
+		return ""
+	}
+	o := ps[s.choose(len(ps), nil)]
+	o.resp = response{idx: s.caseIndex(o, id, !tSends)}
+	if !tSends {
+		s.ownerOf(t, ch)
+	}
+	t.pair = o
+	s.Fault("reach:rendezvous-on-unbuffered-channel")
+	return " <-> " + o.name
 }
 
 //go:norace
@@ -414,26 +551,15 @@ func (s *Sim) grantable(t *Task) bool {
 		ls := s.lockOf(r.obj, r.keep)
 		return !ls.writer && ls.pendingW == 0
 	case opSend:
-		id, v := chanID(r.keep)
-		if id == 0 {
-			return false
-		}
-		if _, closed := s.closed[id]; closed {
-			return true // the real send panics, as it should
-		}
-		if v.Cap() == 0 {
-			s.Machinery("send on unbuffered channel at site %d is not modelled", r.site)
-			return false
-		}
-		return v.Len() < v.Cap()
+		return s.chanSendReady(t, r.keep)
 	case opRecv:
-		return s.chanRecvReady(r.keep)
+		return s.chanRecvReady(t, r.keep)
 	case opSelect:
 		if r.hasDefault {
 			return true
 		}
 		for _, c := range r.chans {
-			if s.caseReady(c) {
+			if s.caseReady(t, c) {
 				return true
 			}
 		}
@@ -504,7 +630,7 @@ func (s *Sim) grant(t *Task) string {
 		t.resp.actx, t.resp.atm = nil, nil
 		var ready []int
 		for i, c := range r.chans {
-			if s.caseReady(c) {
+			if s.caseReady(t, c) {
 				ready = append(ready, i)
 			}
 		}
@@ -513,13 +639,16 @@ func (s *Sim) grant(t *Task) string {
 			return "default"
 		}
 		t.resp.idx = ready[s.choose(len(ready), nil)]
-		if _, isSend := r.chans[t.resp.idx].(SendCase); isSend {
-			return fmt.Sprintf("case %d (send) of %v", t.resp.idx, ready)
+		if sc, isSend := r.chans[t.resp.idx].(SendCase); isSend {
+			return fmt.Sprintf("case %d (send) of %v", t.resp.idx, ready) + s.rendezvous(t, sc.Ch, true)
 		}
 		s.ownerOf(t, r.chans[t.resp.idx])
-		return fmt.Sprintf("case %d of %v", t.resp.idx, ready)
+		return fmt.Sprintf("case %d of %v", t.resp.idx, ready) + s.rendezvous(t, r.chans[t.resp.idx], false)
 	case opRecv:
 		s.ownerOf(t, r.keep)
+		return s.rendezvous(t, r.keep, false)
+	case opSend:
+		return s.rendezvous(t, r.keep, true)
 	case opOnce:
 		os := s.onceOf(r.obj)
 		if os.done || os.running == t {
